@@ -1838,9 +1838,10 @@ export class AnyOfDiscriminatedRuntype extends BaseRuntype {
     this.ensureContextualDefinition(syntheticRefName, runtype, ctx);
     return printingContext.getRef(syntheticRefName);
   }
-  // own-property lookup: a discriminator value such as "constructor" or "toString" must not reach Object.prototype
+  // own-property lookup: a discriminator value such as "constructor" or "toString" must not reach Object.prototype,
+  // and only strings can equal a variant's tag (anything else would be coerced to a property key, which may throw)
   private variantFor(d: any): Runtype | undefined {
-    return Object.prototype.hasOwnProperty.call(this.mapping, d) ? this.mapping[d] : undefined;
+    return typeof d === "string" && Object.prototype.hasOwnProperty.call(this.mapping, d) ? this.mapping[d] : undefined;
   }
   validate(ctx: ValidateContext, input: unknown): boolean {
     if (typeof input !== "object" || input == null) {
